@@ -66,9 +66,11 @@ def run_case(case):
         # one long-lived (memo-free) object evaluated under a sequence of dictionaries; the last one is judged
         _, label, term, seq = case
         w, obj = make(term, "nocache")
-        for o in seq:
+        for si, o in enumerate(seq):
             impl = observe(w, lambda: obj.evaluate(o))
             res["evaluations"] += 1
+            if impl.ok and si < len(seq) - 1:
+                _scribble(impl.value)
         d = same_outcome(impl, Ref().run(term, seq[-1]))
         if d:
             res["failures"].append(_fail(label, term, seq[-1], d, seq))
@@ -93,6 +95,8 @@ def run_case(case):
             res["evaluations"] += 1
             seen.add(repr(ref.canon()))
             d = same_outcome(impl, ref)
+            if impl.ok and depth <= 1:
+                _scribble(impl.value)  # the caller owns what it got: changing it must not change later results
             if d and not bad:
                 bad = True
                 if check_one(label, term, o)[2]:
@@ -106,6 +110,26 @@ def run_case(case):
         if a == 0 and len(res["samples"]) < 2 and dicts:
             res["samples"].append({"label": label, "term": short(term, 400), "options": dicts[-1], "ref": repr(r.run(term, dicts[-1]))})
     return res
+
+
+def _scribble(v, depth=0):
+    """modify every mutable container of a returned value in place"""
+    if depth > 6:
+        return
+    if isinstance(v, dict):
+        for x in list(v.values()):
+            _scribble(x, depth + 1)
+        try:
+            v["__scribbled__"] = 1
+        except TypeError:
+            pass
+    elif isinstance(v, list):
+        for x in v:
+            _scribble(x, depth + 1)
+        v.append("__scribbled__")
+    elif isinstance(v, (tuple, set, frozenset)):
+        for x in v:
+            _scribble(x, depth + 1)
 
 
 def _fail(label, term, o, d, seq=None):
